@@ -70,6 +70,29 @@ let handle (toks : Stdlib.String.t list) : Stdlib.String.t =
       let rs = Stdlib.List.map (fun s -> if s = "N" then APend else AEv (ev_of s)) evs in
       let cancels = match cs with [c] -> Stdlib.List.init (Stdlib.String.length c) (fun i -> c.[i] = '1') | _ -> [] in
       Stdlib.String.concat " " (Stdlib.List.map show_out (run_async (mode_of m) (v = "1") tab rs (Stdlib.List.map wev_of wevs) cancels))
+  | "conv" :: m :: v :: rest ->
+      let (fs, rest2) = split_bar [] rest in
+      let (evs, ops) = split_bar [] rest2 in
+      let tab = Stdlib.List.map frame_of fs in
+      let tr = Stdlib.List.map ev_of evs in
+      let uops = Stdlib.List.map (fun s -> if s = "r" then URead else UWrite (bytes_of_hex (Stdlib.String.sub s 1 (Stdlib.String.length s - 1)))) ops in
+      Stdlib.String.concat " " (Stdlib.List.map (fun (u, o) -> match (u, o) with
+          | (true, Wrote bs) -> "U" ^ hex_of_bytes bs
+          | (_, o) -> show_out o) (run_conv (mode_of m) (v = "1") tab tr uops))
+  | "aconv" :: m :: v :: rest ->
+      let (fs, rest2) = split_bar [] rest in
+      let (evs, rest3) = split_bar [] rest2 in
+      let (wevs, rest4) = split_bar [] rest3 in
+      let (cs, sched) = split_bar [] rest4 in
+      let tab = Stdlib.List.map frame_of fs in
+      let rs = Stdlib.List.map (fun s -> if s = "N" then APend else AEv (ev_of s)) evs in
+      let cancels = match cs with [c] -> Stdlib.List.init (Stdlib.String.length c) (fun i -> c.[i] = '1') | _ -> [] in
+      let wsched = Stdlib.List.map (fun e -> if e = "-" then [] else Stdlib.List.map bytes_of_hex (Stdlib.String.split_on_char '+' e)) sched in
+      Stdlib.String.concat " " (Stdlib.List.map (fun t -> match t with
+          | TW b -> "W" ^ hex_of_bytes b
+          | TR r -> show_out (Ret r)
+          | TU (pre, fr) -> "U" ^ hex_of_bytes (Stdlib.List.append pre fr))
+        (run_aconv (mode_of m) (v = "1") tab rs (Stdlib.List.map wev_of wevs) cancels wsched))
   | ["awrite"; h] ->
       let (its, n) = awrite (bytes_of_hex h) in
       Stdlib.String.concat " " (Stdlib.List.map show_item its) ^ " " ^ string_of_int (int_of_nat n)
